@@ -32,6 +32,8 @@ func checkC16(c *Ctx) {
 	c.Rule("R16.5", "the console encoder's Clone carries context bytes, configuration, spacing and the open-namespace count (the context it later renders is the JSON encoder's)", 2)
 	c7CloneCarries(c, "R16.5")
 	c.Rule("R16.4", "optional column encoders are nil-guarded", 6)
+	c.Rule("R16.7", "the pooled column encoder (and every other pooled object) is not used, and nothing that points into its storage is returned, after it went back to its pool", 8)
+	c8UseAfterRelease(c, "R16.7", c8ReleaseFns(c))
 
 	fn := c.Method(CorePath, "consoleEncoder", "EncodeEntry")
 	if !c.Anchor("R16.1", "zapcore.consoleEncoder.EncodeEntry", fn != nil) {
